@@ -1,15 +1,7 @@
-(* Recorded findings for C10 (findings_proposed/C10.txt).  Each statement exhibits an input on which the faithful
-   model of srt/reader.py does not return the cues written; the witnesses are also run against the real code by
-   harness/c10.py on every check.  If this file stops compiling a finding is stale, which the check reports as such
-   (it is not a violation).
-   The four findings recorded earlier (brace-short-tags, stray-end-tag, literal-backslash-n-backslash-r,
-   crlf-kept-in-untranslated-stream) are repaired in the code: their refuted statements are gone and their witnesses
-   are read as written (Properties/C10.v, C10_repaired_witnesses). *)
+(* Recorded findings for C10 (findings_proposed/C10.txt): none.
+   The five findings recorded earlier (brace-short-tags, stray-end-tag, literal-backslash-n-backslash-r,
+   crlf-kept-in-untranslated-stream, hours-beyond-999-rejected) are repaired in the code: their refuted statements are
+   gone and their witnesses are read as written (Properties/C10.v, C10_repaired_witnesses and C10_writer_hours_example;
+   harness/witnesses_c10.py runs them against the code on every check).  This file is kept so that the build targets and
+   the check's stale-finding test stay in place. *)
 From TT Require Import Base.Prelude Base.SrtTypes Model.SrtReader Spec.SrtCueSpec Spec.SrtWriterOut Proofs.C10.Witness.
-
-(* id=hours-beyond-999-rejected : a cue that ends at 1000 h or later is printed by the SRT writer with a four-digit
-   hour field (1000:00:00,000); the reader's pattern [0-9]{2,3} does not accept it: "Missing timecode", None returned *)
-Theorem C10_writer_hours_refuted : exists cs, wwf cs = true /\ trigger_hours_1000 cs = true /\
-  read_cues (wprint cs) = RetNone /\ read_cues_file (wprint cs) = RetNone.
-Proof. exact writer_hours_refuted. Qed.
-Print Assumptions C10_writer_hours_refuted.
